@@ -593,6 +593,8 @@ template<class GraphImpl>
 std::vector<Graph::NodeId> TreeGraphImpl<GraphImpl>::getSubtreeNodes(Graph::NodeId localRoot) const
 {
   mustBeValid_();
+  // in an unrooted tree the sons of a son include the node itself: the recursion would never end
+  mustBeRooted_();
   std::vector<Graph::EdgeId> metNodes;
   fillSubtreeMetNodes_(metNodes, localRoot);
   return metNodes;
@@ -602,6 +604,8 @@ template<class GraphImpl>
 std::vector<Graph::EdgeId> TreeGraphImpl<GraphImpl>::getSubtreeEdges(Graph::NodeId localRoot) const
 {
   mustBeValid_();
+  // in an unrooted tree the sons of a son include the node itself: the recursion would never end
+  mustBeRooted_();
   std::vector<Graph::EdgeId> metEdges;
   fillSubtreeMetEdges_(metEdges, localRoot);
   return metEdges;
